@@ -177,12 +177,13 @@ theorem c11_frame {env : MEnv} {h : Heap} {target : Val} {sroot : Bool} {orig : 
     `d` before reaching it (`hnv`; false only for cyclic targets, see the counter-example below),
     path arguments are immediate values, the `get` / `assign` registrations pair up, and Python
     stored the value where the cell can show it (`hnh`: not a hidden attribute of a container
-    subclass, not a scope binding). -/
+    subclass; `hsc`: not an *attribute* of the scope's ChainMap object — an item binding
+    `Assign(S[name], v)` in the scope frame is covered: a later step of the chain reads it back). -/
 theorem c11_put_get_partial {env : MEnv} {h : Heap} {target : Val} {sroot : Bool} {orig : List Step}
     {vs : ValSpec} {missing : Missing} (hy : Hyps env h target sroot orig vs missing) (sref : Val)
     (hp : pairedRegs env = true) (has : argsScalar orig = true) (d v : Val)
     (hm : matchesOf env h orig.dropLast 0 (if sroot then sref else target) = .ok [d])
-    (hsc : isScope env h d = false)
+    (hsc : isScope env h d = false ∨ ∃ a, orig.getLast? = some ("[", a))
     (hnv : d ∉ visits env h orig.dropLast (if sroot then sref else target))
     (hv : refVal env h target vs = some v) (r : Val)
     (hok : (assign env sroot sref missing h target orig vs).2 = .ok r)
@@ -236,12 +237,67 @@ theorem c11_put_get_partial {env : MEnv} {h : Heap} {target : Val} {sroot : Bool
             subst hca
             exact hfr.2 a (fun e => hnv (by rw [e]; exact hc))
           rw [horig, matchesOf_append_ok _ _ hpns 0 _ d hpre]
-          have hrt := refAssign_roundtrip hp hlastw hargk hsc hwh hra
+          have hsc' : isScope env h d = false ∨ op = "[" := by
+            rcases hsc with h1 | ⟨a, ha⟩
+            · exact .inl h1
+            · rw [hl] at ha; injection ha with ha; injection ha with ha _; exact .inr ha
+          have hrt := refAssign_roundtrip hp hlastw hargk hsc' hwh hra
           have hopb : (op == "." || op == "[" || op == "P") = true := by
             rcases (wfSteps_op hlastw).1 with rfl | rfl | rfl <;> simp
           have hnx := (wfSteps_op hlastw).2.1
           simp [matchesOf, hnx, hopb, hrt]
     · rw [hm] at hm'; cases hm'
+
+/-- **Read-back in the same chain** (put-get as it is observed on the implementation): in
+    `glom(target, (Assign(path, val, missing=…), readPath))` the second step reads, in the heap the
+    assignment left, exactly what `readPath` addresses in the heap of the plain-Python assignment —
+    for S-rooted paths starting from the frame the destination was bound in, so a scope variable
+    created by the Assign (also one created through `missing` when the *first* segment was
+    absent) is found by later steps; after a failed Assign the read does not run.  For every
+    read path of access steps and wildcards (wildcards: no class standing for the scope). -/
+theorem c11_read_checks {env : MEnv} {h : Heap} {target : Val} {sroot : Bool} {orig : List Step}
+    {vs : ValSpec} {missing : Missing} (hy : Hyps env h target sroot orig vs missing) (sref : Val)
+    (rd : List Step) (hrd : wfStar (readSteps sroot rd) = true)
+    (hns : hasStar (readSteps sroot rd) = false ∨ noScope env = true) :
+    checkRead env h target (if sroot then sref else target) orig vs missing (readSteps sroot rd)
+      (observeRead env (assignThenRead env sroot sref missing h target orig vs rd).2) = true := by
+  have hr := c11_refines hy sref
+  obtain ⟨hwf, hc, _, _, _, _⟩ := covered_parts hy
+  unfold checkRead assignThenRead
+  cases href : refAssign env h target (if sroot then sref else target) orig vs missing with
+  | unsupported => rfl
+  | fail a =>
+    rw [href] at hr
+    obtain ⟨⟨e, he⟩, _⟩ := hr
+    simp only [he, observeRead]
+  | ok h' hid n =>
+    cases hid with
+    | true => rfl
+    | false =>
+    rw [href] at hr
+    obtain ⟨h1, h2, _⟩ := hr
+    simp only [h1, h2]
+    generalize readSteps sroot rd = rs at hrd hns ⊢
+    have hns' : hasStar rs = false ∨ ∀ c, isScope env h' c = false := by
+      rcases hns with a | a
+      · exact .inl a
+      · exact .inr (noScope_isScope a h')
+    have hspec := fetch_spec hwf hc h' rs hrd hns' 0 (if sroot then sref else target)
+    cases hm : matchesOf env h' rs 0 (if sroot then sref else target) with
+    | ok ds =>
+      rw [hm] at hspec
+      obtain ⟨nest, hf, hu, hl⟩ := hspec
+      simp [hf, observeRead, hu, hl]
+    | fail k e stop =>
+      rw [hm] at hspec
+      simp [hspec, observeRead, observeErr]
+    | unreg => rw [hm] at hspec; exact hspec.elim
+    | unsupported => rfl
+
+/-- a path whose first step is spelled `S[name]` is evaluated as it is written -/
+theorem c11_sMagic_item (arg : Val) (r : List Step) (sroot : Bool) :
+    readSteps sroot (("[", arg) :: r) = ("[", arg) :: r := by
+  cases sroot <;> simp [readSteps, sMagic]
 
 /-- **`missing`**: when the walk stops at segment `k` and a factory is given, a successful
     assign made exactly one factory call per absent segment — `orig.length - 1 - k` of them —;
@@ -424,6 +480,20 @@ example :
     let out := assign sEnv true (.ref 1) (.factory "dict") sHeap (.ref 0) sPath (.lit (.int 5))
     out.2 = .ok (.ref 0) ∧ out.1.heap[0]? = some (.dict "dict" [(.str "n", .ref 2)]) ∧
       out.1.heap[2]? = some (.dict "dict" [(.str "z", .int 5)]) := by decide
+
+/-- seeded change C11-s7's class: the *first* segment of an S-rooted destination is absent
+    (`glom(t, (Assign(S['cfg']['a'], 5, missing=dict), S['cfg']['a']), scope={'d': {}})`): one factory
+    call, the fresh dict is bound in the scope frame (cell 1), and the read-back finds the value -/
+example :
+    let r := assignThenRead sEnv true (.ref 1) (.factory "dict") sHeap (.ref 0)
+      [("[", .str "cfg"), ("[", .str "a")] (.lit (.int 5)) [("[", .str "cfg"), ("[", .str "a")]
+    r.1.2 = .ok (.ref 0) ∧ r.1.1.calls = 1 ∧
+    r.1.1.heap[1]? = some (.dict "Scope" [(.str "d", .ref 0), (.str "cfg", .ref 2)]) ∧
+    r.1.1.heap[2]? = some (.dict "dict" [(.str "a", .int 5)]) ∧
+    ReadObs.beq (observeRead sEnv r.2) (.ok (.leaf (.int 5))) = true := by decide
+/-- … and the hypotheses of `c11_read_checks` / of put-get hold for it -/
+example : Hyps sEnv sHeap (.ref 0) true [("[", .str "cfg"), ("[", .str "a")] (.lit (.int 5)) (.factory "dict") ∧
+    wfStar [("[", .str "cfg"), ("[", .str "a")] = true := by decide
 
 /-- **Counter-example for `missingOK` (immediate path arguments)** — forced by the proof, *not*
     reachable in Python: with a dangling heap reference used as a key (address 1 does not exist
